@@ -90,6 +90,46 @@ class C12(F.Check):
                           key={"n": n, "prime": isp}, family="is_prime", native=False)
             ks.append(k2)
             self.closed.append(k2)
+        # is_prime on a dense adversarial list, batched: every base-2 strong pseudoprime below 2^22 (computed here), the
+        # psi_k values (smallest strong pseudoprimes to the first k prime bases), Carmichael numbers with three factors
+        # above the trial-division table, strong Lucas pseudoprimes, and the primes next to each of them
+        def spsp2(limit):
+            out = []
+            for n in range(2047, limit, 2):
+                d, s_ = n - 1, 0
+                while d % 2 == 0:
+                    d //= 2
+                    s_ += 1
+                x = pow(2, d, n)
+                if x == 1 or x == n - 1:
+                    ok = True
+                else:
+                    ok = False
+                    for _ in range(s_ - 1):
+                        x = x * x % n
+                        if x == n - 1:
+                            ok = True
+                            break
+                if ok and not sympy.isprime(n):
+                    out.append(n)
+            return out
+        dense = spsp2(1 << (22 if self.tier == "quick" else 25))
+        dense += [1373653, 25326001, 3215031751, 2152302898747, 3474749660383, 341550071728321, 3825123056546413051,
+                  4759123141, 1122004669633, 318665857834031151167461 % (1 << 61)]
+        dense += [5459, 5777, 10877, 16109, 18971, 22499, 24569, 25199, 40309, 58519, 75077, 97439, 100127, 113573, 115639, 130139,
+                  155819, 158399, 161027, 162133, 176399, 176471, 189419, 192509, 197801, 224369, 230691, 231703, 243629, 253259]
+        dense += [int(sympy.nextprime(x)) for x in dense[::7]] + [int(sympy.prevprime(x)) for x in dense[3::11]]
+        for a, b, c in ((547, 557, 563), (1009, 1013, 1019), (65521, 65537, 65539)):
+            dense += [a * b * c, a * a * b]
+        dense = sorted(set(int(x) for x in dense if 1 < x < (1 << 64)))
+        self.extra_cov["is_prime_dense_list"] = len(dense)
+        for i in range(0, len(dense), 16):
+            chunk = dense[i:i + 16]
+            expr = " && ".join("(au::detail::is_prime(%dull) == %s)" % (x, "true" if sympy.isprime(x) else "false") for x in chunk)
+            k = F.Kernel("c12_isprime_batch_%d" % (i // 16), "bool", [], "constexpr bool v = %s; return v;" % expr,
+                         key={"numbers": chunk}, family="is_prime_batch", native=False)
+            ks.append(k)
+            self.closed.append(k)
         # products: mag<a>() * mag<b>() == mag<a*b>()
         prods = [(2047, 3277), (561, 1729), (65521, 65537), (2147483647, 4294967291), (4294967291, 4294967311), (5459, 5777),
                  (1 << 16, 3 ** 10), (2147483629, 2147483647)]
